@@ -17,6 +17,8 @@ def seq(t):
             b = b[1]
         if b[0] == "p":
             return [("atom", t)]     # a container-valued field of an input atom
+        if t[0] == "vfld" and t[2] in ("Ok", "Some") and t[1][0] == "seq":
+            return [("atom", t)]     # the vector a fallible chain collected: one opaque run of elements
     if t[0] == "call" and t[1] in NEW:
         return []
     if t[0] == "array":
